@@ -33,7 +33,7 @@ if hasattr(sys, "set_int_max_str_digits"):
     sys.set_int_max_str_digits(0)
 
 PROPERTY = "C13"
-LEAN_MODULES = ["SigpyVerif.Props.C13"]
+LEAN_MODULES = ["SigpyVerif.Props.C13", "SigpyVerif.Props.C13Conv", "SigpyVerif.Props.C13Accel"]
 THEOREMS = ["SigpyVerif.C13." + t for t in [
     "gmStep_x_isProx", "ista_step_ineq", "ista_descent", "ista_rate", "t_rule_ok", "t_rule_growth",
     "fista_lyapunov", "fista_invariants", "fista_rate", "pdhg_fixed_point_iff_saddle", "pdhg_fejer",
@@ -42,7 +42,16 @@ THEOREMS = ["SigpyVerif.C13." + t for t in [
     "StepOp.scalar_pos", "StepOp.Pos.smul", "StepOp.Pos.div", "StepOp.diag_pos", "isProxW_scalar", "isProxW_unique",
     "metricPSD_scalar", "metricPSD_pock_chambolle", "metricPSD_abs_sums", "matOp_adjoint",
     "pdhg_fixed_point_iff_saddle_diag", "pdhg_fejer_diag", "pdhg_fejer_diag_monotone", "pdhg_fejer_run_diag",
-    "pdhg_residual_rate_partial",
+    "pdhg_residual_rate_partial", "pdThetaP_eq", "pdThetaD_eq",
+    # convergence of the iterates (finite dimension), ergodic gap, accelerated O(1/N^2) rate
+    "opial_core", "isProx_nonexpansive", "grad_cocoercive", "grad_step_nonexpansive", "StepOp.Pos.coercive",
+    "isProxW_lipschitz", "metric_range_le", "cpMap_lipschitz_metric", "strong_subgrad", "accel_core",
+    "ista_step_nonexpansive", "ista_fixed_iff_minimiser", "ista_asymptotic_regularity", "ista_iterates_converge",
+    "pdPair_succ", "cpMap_fixed_iff_saddle", "pdhg_iterates_converge", "pdhg_iterates_converge_scalar",
+    "pdhg_gap_step_diag", "pdhg_gap_run_diag", "pdhg_ergodic_gap",
+    "pdhg_accel_lyapunov", "pdhg_accel_energy_run", "pdhg_accel_tau_decay", "pdhg_accel_dist_tau", "pdhg_accel_rate",
+    "accel_core_dual", "pdhg_accel_lyapunov_dual", "pdhg_accel_run_dual", "pdhg_accel_energy_run_dual",
+    "pdhg_accel_sigma_decay", "pdhg_accel_rate_dual",
 ]]
 
 
@@ -652,9 +661,12 @@ def correspond(ctx):
         "numpy object-array arithmetic (+,-,*,/,@, clip, copyto) applies the scalar operations elementwise",
         "the statement order of the two _update bodies and the if/elif/else conditions of the step-size block are "
         "pinned by the translator plugin and validated by the correspondence, not proved",
-        "convergence of the PDHG iterates to the minimiser itself (with/without acceleration) is validated by the search "
-        "oracle only (proved: Fejér monotonicity for scalar and array steps and the 1/N rate of the update size, "
-        "pdhg_residual_rate_partial)",
+        "proved in finite dimension: convergence of the ISTA and of the non-accelerated PDHG iterates (scalar or array steps, "
+        "tau sigma |A|^2 <= 1 incl. equality), the ergodic gap bound, and for gamma_primal > 0 with scalar steps the O(1/N^2) "
+        "rate (gamma_dual > 0: under tau sigma |A|^2 < 1); validated by the search oracle only: the accelerated variants with array-valued steps, "
+        "convergence of the FISTA iterates",
+        "strong convexity of g (resp. f*) enters pdhg_accel_* as Mathlib's StrongConvexOn univ gamma; the oracle instances use "
+        "g = lam/2 |x|^2 with gamma_primal <= lam and f* = 1/2 |u|^2 + <u,b> with gamma_dual <= 1",
         "array steps enter the theorems as the operator they act as (StepOp: v -> tau*v elementwise, v -> v/tau) and "
         "the prox with an array step through its characterisation in the tau^-1-weighted inner product (IsProxW); that "
         "sigpy.prox maps called with an array step satisfy it is C11's subject / the correspondence's",
@@ -823,7 +835,8 @@ def zero_grad_instance(rng, fam, gspec, cplx):
         xs = reference_point(A, b, gspec)
     if np.any(A.conj().T @ (A @ x0 - b)):
         return None
-    return dict(A=A, b=b, xs=xs.astype(dt), us=(A @ xs - b).astype(dt), gspec=gspec, structured="zero-grad:" + fam), x0
+    return dict(A=A, b=b, xs=xs.astype(dt), us=(A @ xs - b).astype(dt), gspec=gspec, structured="zero-grad:" + fam,
+                exact_xs=(fam == "denoise")), x0
 
 
 def case_of(P, extra):
@@ -836,7 +849,8 @@ def case_of(P, extra):
              b_re=P["b"].real.tolist(), b_im=P["b"].imag.tolist() if np.iscomplexobj(P["b"]) else None,
              xs_re=P["xs"].real.tolist(), xs_im=P["xs"].imag.tolist() if np.iscomplexobj(P["xs"]) else None,
              us_re=P["us"].real.tolist(), us_im=P["us"].imag.tolist() if np.iscomplexobj(P["us"]) else None,
-             gspec=P["gspec"], structured=P.get("structured"), identity_kind=P.get("identity_kind"))
+             gspec=P["gspec"], structured=P.get("structured"), identity_kind=P.get("identity_kind"),
+             exact_xs=P.get("exact_xs", True))
     d.update(extra)
     return d
 
@@ -869,7 +883,7 @@ def P_of(d):
         return re + 1j * np.array(im, dtype=float) if im is not None else re
     return dict(A=cv(d["A_re"], d["A_im"]), b=cv(d["b_re"], d["b_im"]), xs=cv(d["xs_re"], d["xs_im"]),
                 us=cv(d["us_re"], d["us_im"]), gspec=d["gspec"], structured=d.get("structured"),
-                identity_kind=d.get("identity_kind") or "lambda")
+                identity_kind=d.get("identity_kind") or "lambda", exact_xs=d.get("exact_xs", True))
 
 
 def oracle_gm(ctx, P, x0, c_alpha, accel, K, origin, w_extra=None, lo=None):
@@ -900,6 +914,9 @@ def oracle_gm(ctx, P, x0, c_alpha, accel, K, origin, w_extra=None, lo=None):
                            w_extra_re=w_extra.real.tolist() if w_extra is not None else None,
                            w_extra_im=w_extra.imag.tolist() if w_extra is not None and np.iscomplexobj(w_extra) else None))
     ok = True
+    # ista_step_nonexpansive + ista_fixed_iff_minimiser: without acceleration the distance to EVERY minimiser never
+    # increases (the planted x* is a minimiser up to the accuracy of its construction; reference points are not)
+    dist_prev = float(np.linalg.norm(x0 - P["xs"])) if (not accel and P.get("exact_xs", True)) else None
     for k in range(1, K + 1):
         try:
             a.update()
@@ -918,6 +935,16 @@ def oracle_gm(ctx, P, x0, c_alpha, accel, K, origin, w_extra=None, lo=None):
                      origin=origin)
             return False
         Fprev = Fk
+        if dist_prev is not None:
+            dk = float(np.linalg.norm(flat(xc) - P["xs"]))
+            if k == 1:
+                ctx.count("oracle:gm:fejer:runs")
+            if dk > dist_prev + 1e-8 * (1 + math.sqrt(d0[0])):
+                ctx.fail("C13:gm:fejer", "distance to a minimiser increased in a non-accelerated update with alpha <= 1/L",
+                         case, observed="|x_%d - x*|=%.17g > |x_%d - x*|=%.17g" % (k, dk, k - 1, dist_prev),
+                         expected="non-increasing (ista_step_nonexpansive)", origin=origin)
+                return False
+            dist_prev = dk
         for Fwi, d in zip(Fw, d0):
             bound = 2 * d / (alpha * (k + 1) ** 2) if accel else d / (2 * alpha * k)
             if Fk - Fwi > bound * (1 + 1e-9) + 1e-10 * scale:
@@ -982,6 +1009,15 @@ def oracle_pd(ctx, P, x0, u0, tau, sigma, gp, gd, K, what, origin, lo=None):
     nx0, nu0 = float(np.linalg.norm(x0 - xs)) ** 2, float(np.linalg.norm(u0 - us)) ** 2
     e0 = nx0 / tmin ** 2 + nu0 / (tmin * smin)      # |x0-x*|²/τ0² + |u0-u*|²/(τ0σ0)
     f0 = nu0 / smin ** 2 + nx0 / (tmin * smin)
+    # pdhg_ergodic_gap: comparison pairs (w, v) with finite g(w): the saddle point and a second, generic pair
+    scalar_steps = not isinstance(tau0, np.ndarray) and not isinstance(sig0, np.ndarray)
+    pairs = [(xs, us), (np_prox(P["gspec"], 1.0, 0.5 * (xs + x0)).astype(A.dtype), (0.5 * (us + u0)).astype(A.dtype))]
+    sumX, sumU, u1 = np.zeros(n, dtype=A.dtype), np.zeros(m, dtype=A.dtype), None
+
+    def lagr(xx, uu):
+        return g_value(P["gspec"], xx) + float(np.vdot(uu, A @ xx).real) - (0.5 * float(np.vdot(uu, uu).real) + float(np.vdot(uu, b).real))
+    psi_prev = e0 / 2 if (what == "converge" and gp > 0 and gd == 0 and scalar_steps) else None   # Psi(s_0), x_ext = x
+    psid_prev = f0 / 2 if (what == "converge" and gd > 0 and gp == 0 and scalar_steps) else None  # Psi_d(s_0)
     for k in range(1, K + 1):
         x_before = flat(xc)
         try:
@@ -1002,6 +1038,66 @@ def oracle_pd(ctx, P, x0, u0, tau, sigma, gp, gd, K, what, origin, lo=None):
                 ctx.fail("C13:pd:saddle-fixed", "iterates started at a saddle point move away from it", case,
                          observed="update %d: max deviation %.3g" % (k, dev), expected="<= 1e-10 (fixed point)", origin=origin)
                 return False
+        if what == "converge" and gp > 0 and gd == 0 and scalar_steps and psi_prev is not None:
+            # pdhg_accel_lyapunov on the state the object holds: Psi = (|x-x*|²/(2τ) + |u-u*|²/(2σ))/τ + |x_ext-x|²/(2τ²)
+            # + Re<A(x_ext-x), u-u*>/τ never increases.  Evaluated while the iterate is far from the planted saddle point
+            # compared with the accuracy (1e-12 relative) to which that point is a saddle point.
+            if float(np.linalg.norm(xk - xs)) >= 1e-6 * scale:
+                tk, sk = float(a.tau), float(a.sigma)
+                ek = flat(a.x_ext) - xk
+                psi = ((float(np.linalg.norm(xk - xs)) ** 2 / (2 * tk) + float(np.linalg.norm(uk - us)) ** 2 / (2 * sk)) / tk
+                       + float(np.linalg.norm(ek)) ** 2 / (2 * tk ** 2) + float(np.vdot(uk - us, A @ ek).real) / tk)
+                ctx.count("oracle:pd:accel-lyapunov:evaluated")
+                if not psi <= psi_prev * (1 + 1e-9) + 1e-12 * (1 + e0):
+                    ctx.fail("C13:pd:accel-lyapunov", "accelerated PDHG (gamma_primal > 0, scalar steps): the Lyapunov function of "
+                             "Chambolle-Pock Alg. 2 increased in one update", case,
+                             observed="k=%d Psi=%.17g > previous %.17g" % (k, psi, psi_prev), expected="non-increasing",
+                             origin=origin)
+                    return False
+                psi_prev = psi
+            else:
+                psi_prev = None
+        if what == "converge" and gd > 0 and gp == 0 and scalar_steps:
+            # the mirrored statements for gamma_dual > 0: pdhg_accel_run_dual / pdhg_accel_sigma_decay on the steps,
+            # pdhg_accel_lyapunov_dual on Psi_d = (|x-x*|²/(2τ) + |u-u*|²/(2σ))/σ + Re<A(x_ext-x), u-u*>/σ + |x_ext-x|²/(2τσ)
+            tk, sk = float(a.tau), float(a.sigma)
+            if k <= 3 or k in (20, 100, 500) or k == K:
+                ctx.count("oracle:pd:accel-steps-dual:evaluated")
+                if not (abs(tk * sk - tmin * smin) <= 1e-9 * tmin * smin and sk > 0
+                        and 1 / sk >= (1 / smin + k * gd / (1 + gd * smin)) * (1 - 1e-9)):
+                    ctx.fail("C13:pd:accel-steps-dual", "accelerated PDHG (gamma_dual > 0, scalar steps): the rescaled steps leave the "
+                             "guaranteed range (tau*sigma invariant, 1/sigma_k >= 1/sigma_0 + k*gamma/(1+gamma*sigma_0))", case,
+                             observed="k=%d tau=%.17g sigma=%.17g" % (k, tk, sk),
+                             expected="tau*sigma=%.17g, 1/sigma >= %.17g" % (tmin * smin, 1 / smin + k * gd / (1 + gd * smin)),
+                             origin=origin)
+                    return False
+            if psid_prev is not None and float(np.linalg.norm(uk - us)) >= 1e-6 * scale:
+                ek = flat(a.x_ext) - xk
+                psid = ((float(np.linalg.norm(xk - xs)) ** 2 / (2 * tk) + float(np.linalg.norm(uk - us)) ** 2 / (2 * sk)) / sk
+                        + float(np.vdot(uk - us, A @ ek).real) / sk + float(np.linalg.norm(ek)) ** 2 / (2 * tk * sk))
+                ctx.count("oracle:pd:accel-lyapunov-dual:evaluated")
+                if not psid <= psid_prev * (1 + 1e-9) + 1e-12 * (1 + f0):
+                    ctx.fail("C13:pd:accel-lyapunov-dual", "accelerated PDHG (gamma_dual > 0, scalar steps): the Lyapunov function "
+                             "Psi_d increased in one update", case,
+                             observed="k=%d Psi_d=%.17g > previous %.17g" % (k, psid, psid_prev), expected="non-increasing",
+                             origin=origin)
+                    return False
+                psid_prev = psid
+            else:
+                psid_prev = None
+        if what == "converge" and gp > 0 and gd == 0 and scalar_steps and (k <= 3 or k in (20, 100, 500) or k == K):
+            # pdhg_accel_run_primal / pdhg_accel_tau_decay on the steps the object holds after k updates:
+            # tau*sigma is invariant and 1/tau_k >= 1/tau_0 + k*gamma/(1+gamma*tau_0)
+            tk, sk = float(a.tau), float(a.sigma)
+            ctx.count("oracle:pd:accel-steps:evaluated")
+            if not (abs(tk * sk - tmin * smin) <= 1e-9 * tmin * smin and tk > 0
+                    and 1 / tk >= (1 / tmin + k * gp / (1 + gp * tmin)) * (1 - 1e-9)):
+                ctx.fail("C13:pd:accel-steps", "accelerated PDHG (gamma_primal > 0, scalar steps): the rescaled steps leave the "
+                         "guaranteed range (tau*sigma invariant, 1/tau_k >= 1/tau_0 + k*gamma/(1+gamma*tau_0))", case,
+                         observed="k=%d tau=%.17g sigma=%.17g" % (k, tk, sk),
+                         expected="tau*sigma=%.17g, 1/tau >= %.17g" % (tmin * smin, 1 / tmin + k * gp / (1 + gp * tmin)),
+                         origin=origin)
+                return False
         if what == "converge" and (gp > 0 or gd > 0) and (k in (20, 100, 500) or k == K):
             # Chambolle–Pock Alg. 2 (Thm 2 and its proof): |x_N - x*| <= tau_N * sqrt(|x0-x*|²/tau0² + |u0-u*|²/(tau0 sigma0));
             # mirrored for the dual variant.  Observed on the unchanged code: ratio <= 0.9; demanded: <= 2.
@@ -1013,7 +1109,35 @@ def oracle_pd(ctx, P, x0, u0, tau, sigma, gp, gd, K, what, origin, lo=None):
                 ctx.fail(key, "accelerated PDHG: distance to the minimiser after N updates exceeds the O(step_N) guarantee", case,
                          observed="N=%d error %.6g" % (k, err), expected="<= %.6g" % lim, origin=origin)
                 return False
+            if gp > 0 and scalar_steps:
+                # proved for scalar steps (pdhg_accel_dist_tau, pdhg_accel_rate): no slack factor
+                lim1 = float(a.tau) * math.sqrt(e0)
+                ctx.count("oracle:pd:accel-rate-exact:evaluated")
+                lim2 = math.sqrt(e0) / (1 / tmin + k * gp / (1 + gp * tmin))
+                if not (err <= lim1 * (1 + 1e-9) + 1e-9 * scale and err <= lim2 * (1 + 1e-9) + 1e-9 * scale):
+                    ctx.fail("C13:pd:accel-rate", "accelerated PDHG (gamma_primal > 0, scalar steps): |x_N - x*| exceeds the "
+                             "Chambolle-Pock Thm 2 bound tau_N*sqrt(C) resp. sqrt(C)/(1/tau0 + N*gamma/(1+gamma*tau0))", case,
+                             observed="N=%d error %.17g tau_N=%.17g" % (k, err, float(a.tau)),
+                             expected="<= min(%.17g, %.17g)" % (lim1, lim2), origin=origin)
+                    return False
         if what == "fejer":
+            if k == 1:
+                u1 = uk
+            else:
+                sumX, sumU = sumX + x_before, sumU + uk          # pairs (x_j, u_(j+1)), j = 1..N with N = k-1
+                N = k - 1
+                if N in (1, 2, 5, 10, 20, 50, 100) or k == K:
+                    XN, UN = sumX / N, sumU / N
+                    ctx.count("oracle:pd:ergodic-gap:evaluated")
+                    for (w_, v_) in pairs:
+                        D0 = weighted(x0 - w_, tw) - 2 * float(np.vdot(u1 - v_, A @ (x0 - w_)).real) + weighted(u1 - v_, sw)
+                        l1_, l2_ = lagr(XN, v_), lagr(w_, UN)
+                        if not l1_ - l2_ <= D0 / (2 * N) + 1e-9 * (1 + abs(D0) + abs(l1_) + abs(l2_)):
+                            ctx.fail("C13:pd:ergodic-gap", "ergodic primal-dual gap L(X_N, v) - L(w, U_N) exceeds D_0(w,v)/(2N) "
+                                     "(constant steps, PSD metric)", case,
+                                     observed="N=%d gap=%.17g" % (N, l1_ - l2_), expected="<= %.17g" % (D0 / (2 * N)),
+                                     origin=origin)
+                            return False
             dx, du = x_before - xs, uk - us
             D = weighted(dx, tw) - 2 * float(np.vdot(du, A @ dx).real) + weighted(du, sw)
             if Dprev is not None and D > Dprev + 1e-10 * (1 + abs(Dprev)):
